@@ -18,7 +18,8 @@ func init() {
 			"R2 token agreement — at every helper call site the position argument and the quoted entity derive from the same base value (decl.Type.Pos() with decl.Type.Name, name.Pos() with name.Name; the invalid-name offset is startOffset + shift + i with i and the quoted rune from the same validateChangeName call); metaParser's pos/tok/text come from one Scan(); the splitter's startOffset, text and pos are assigned together, per line, from the same line start; " +
 			"R3 line map — ToBytes and splitPatch sample the buffer length before writing the line it describes and pair it with that line's own position; stripping the '-'/'+' byte is paired with StartPos++ in the same arm; every line of a section is mapped back with AddLineColumnInfo(offset, filename, line, column) taken from the matching fields, in that order, for all lines; " +
 			"(and the token.File receiving the table is the one created for that section, identified by object, not by name); R4 rejection means no rewrite — when loadPatches fails Run returns before target discovery. " +
-			"NOT decided: the arithmetic itself (off-by-one constants, token.File line-info semantics).",
+			"NOT decided: the arithmetic itself (off-by-one constants, token.File line-info semantics)." +
+			" R2 also: no uncounted front cut between the header line and the validated name.",
 		Trusted:     commonTrusted,
 		Assumptions: commonAssumptions,
 	})
